@@ -930,6 +930,7 @@ func domSurvey(r *engine.Run, rule string) {
 			}
 		}
 	})
+	surveyReturns(r, rule, survey, lookups)
 	r.Check(rec >= 2, rule, fn(survey)+"|recursion", r.P.Pos(survey.Pos()), fmt.Sprintf("%d recursive calls (extension child, branch children)", rec),
 		fmt.Sprintf("the survey recurses at %d site(s) only: the children of extension or branch nodes are not surveyed", rec))
 }
